@@ -178,7 +178,10 @@ func (m *Monitor) Guard(name string, f func()) Usage {
 	u.CPU = CPUSeconds() - cpu0
 	runtime.ReadMemStats(&ms)
 	u.Alloc = ms.TotalAlloc - alloc0
-	u.PeakHeap = m.peak.Load()
+	// The live-heap figure is that of the most recent collection; a cycle that
+	// began during the previous case and ends in this one counts what that case
+	// held.  What this case can have added is at most what it allocated.
+	u.PeakHeap = min(m.peak.Load(), u.Alloc)
 	// goroutines
 	for i := 0; i < 200 && runtime.NumGoroutine() > base; i++ {
 		runtime.Gosched()
